@@ -131,7 +131,14 @@ def build_entry(I, con: Contract, node, case_types):
 def run_path(con: Contract, case, prefix, worklist, report: FunctionReport, plant_canary=False, setup_hook=None):
     label, case_types = case if case is not None else (None, None)
     try:
-        node, modname, h = source.find_function(con.qualname)
+        try:
+            node, modname, h = source.find_function(con.qualname)
+        except KeyError:
+            role = getattr(con, "located_by", None)
+            if role is None:
+                raise
+            # the helper is not where it used to be (renamed, or a closure turned into a method): found by its role
+            node, modname, h, _m = source.find_function_by_role(*role)
     except KeyError as e:
         why = getattr(con, "must_exist", None)
         if why:
@@ -171,6 +178,10 @@ def run_path(con: Contract, case, prefix, worklist, report: FunctionReport, plan
                 cv[n_] = ty2.fresh(I, n_)
             closure_env = Env(cv, None, importlib.import_module(modname).__dict__)
             bindings.update(cv)
+            # a "closure variable" that the function now takes as a parameter (the closure became a method: `self`)
+            for a_ in node.args.posonlyargs + node.args.args + node.args.kwonlyargs:
+                if a_.arg in cv and a_.arg not in kwargs:
+                    kwargs[a_.arg] = cv[a_.arg]
         if con.setup is not None:
             con.setup(I, bindings)
         for name, lam in con.lets:
